@@ -412,6 +412,15 @@ CORE_CONSTRUCTS = {
                                               ("let", "t2", ("bin", "-", ("n", 0), ("bin", "*", ("n", 4), ("n", 4)))),
                                               ("out", ("v", "t0")), ("out", ("v", "t1")),
                                               ("ret", ("bin", "+", ("v", "t2"), ("bin", "*", ("v", "a"), ("n", 0))))])],
+    # all-literal expressions three and four operators deep, written without parentheses (constant folders of the frontends)
+    "constants_deep_natural": [("entry", ["a", "b"], [
+        ("let", "t0", ("bin", "-", ("bin", "+", ("n", 1), ("bin", "*", ("n", 2), ("n", 3))), ("n", 4))),
+        ("let", "t1", ("bin", "-", ("bin", "+", ("bin", "*", ("n", 2), ("n", 3)), ("n", 4)), ("n", 1))),
+        ("let", "t2", ("bin", "-", ("bin", "-", ("n", 20), ("bin", "*", ("n", 2), ("n", 3))), ("n", 4))),
+        ("let", "t3", ("bin", "+", ("bin", "-", ("bin", "+", ("n", 9), ("bin", "*", ("bin", "*", ("n", 2), ("n", 3)), ("n", 4))), ("n", 5)), ("n", 1))),
+        ("let", "t4", ("bin", "*", ("bin", "*", ("n", 2), ("n", 3)), ("n", 4))),
+        ("out", ("v", "t0")), ("out", ("v", "t1")), ("out", ("v", "t2")), ("out", ("v", "t3")), ("out", ("v", "t4")),
+        ("ret", ("bin", "+", ("bin", "-", ("bin", "+", ("n", 1), ("bin", "*", ("n", 2), ("n", 3))), ("n", 4)), ("bin", "*", ("v", "a"), ("n", 0))))])],
     "arith": [("entry", ["a", "b"], [("ret", ("bin", "-", ("bin", "*", ("v", "a"), ("n", 3)), ("bin", "+", ("v", "b"), ("neg", ("v", "a")))))])],
     "if_else": [("entry", ["a", "b"], [("let", "t0", ("n", 0)), ("if", ("cmp", "<", ("v", "a"), ("v", "b")), [("set", "t0", ("n", 1))], [("set", "t0", ("n", 2))]),
                                        ("if", ("and", ("cmp", ">", ("v", "a"), ("n", 0)), ("not", ("cmp", "==", ("v", "b"), ("n", 1)))), [("set", "t0", ("bin", "+", ("v", "t0"), ("n", 10)))], []),
